@@ -13,7 +13,13 @@ WT="$(mktemp -d "${TMPDIR:-/tmp}/visim-mut.XXXXXX")"
 cleanup() { git -C /repo worktree remove --force "$WT/repo" >/dev/null 2>&1; rm -rf "$WT"; }
 trap cleanup EXIT
 git -C /repo worktree add --detach "$WT/repo" "${MUTANT_BASE:-HEAD}" -q || exit 2
-if ! git -C "$WT/repo" apply "$PATCH"; then echo "PATCH DOES NOT APPLY: $PATCH"; exit 2; fi
+if ! git -C "$WT/repo" apply "$PATCH" 2>/dev/null; then
+  # later repairs in /repo may have moved the context: try a three-way merge against the blobs the patch names
+  if ! git -C "$WT/repo" apply --3way "$PATCH" >/dev/null 2>&1 || git -C "$WT/repo" diff --name-only --diff-filter=U | grep -q .; then
+    echo "PATCH DOES NOT APPLY: $PATCH"; exit 2
+  fi
+  git -C "$WT/repo" reset -q   # keep the merged working tree, drop the index state
+fi
 export GOFLAGS=-mod=mod GOPROXY=off GOSUMDB=off GOTOOLCHAIN=local
 if [ $SUITE -eq 1 ]; then
   (cd "$WT/repo" && go test -vet=off -count=1 ./... 2>&1 | grep -v "gdbm\|no test files" | grep -v "^ok" | head -20)
